@@ -359,7 +359,7 @@ def run(tier):
     from cxxheaderparser.parser import CxxParser
 
     ck = Check("C11", tier)
-    kmax = 5 if tier == "quick" else 7
+    kmax = 5 if tier == "quick" else 6
     ck.encode(LexerTokenStream.get_doxygen, LexerTokenStream.get_doxygen_after, LexerTokenStream._extract_comments, CxxParser.parse,
               CxxParser._parse_declarations, CxxParser._parse_field, CxxParser._parse_enumerator_list)
     ck.bounds = dict(kernel_tokens=kmax, kernel_kinds=K_KINDS, pair_kinds=dict(namespace=sorted(NS_KINDS), klass=sorted(CLS_KINDS)), arrangements=ARRS)
